@@ -1,4 +1,4 @@
-(* C10 property theorems only. *)
+(* C10 property theorems only.  Each is closed by [exact] of a lemma of Proofs_C10 and followed by Print Assumptions. *)
 From Coq Require Import List NArith ZArith Bool.
 From Verif Require Import Common.Str Common.Json C10.Model_C10 C10.Proofs_C10.
 Import ListNotations.
@@ -7,3 +7,130 @@ Import ListNotations.
 Theorem C10_pointer_escape_roundtrip : forall t, unescape (escape t) = t.
 Proof. exact pointer_escape_roundtrip. Qed.
 Print Assumptions C10_pointer_escape_roundtrip.
+
+(* resolve_pointer is RFC 6901 wherever it does not use a non-canonical token as an array index *)
+Theorem C10_pointer_rfc6901_partial : forall d p,
+  valid_escapes p = true -> short_tokens p = true -> lenient_hit d p = false ->
+  resolve_pointer d p = of_opt (rfc6901 d p).
+Proof. exact pointer_rfc6901_partial. Qed.
+Print Assumptions C10_pointer_rfc6901_partial.
+
+(* ... and the unrestricted statement is false: /a/-1, / 1, /1_0 select array elements *)
+Theorem C10_pointer_rfc6901_refuted :
+  (exists d p, lenient_hit d p = true /\ resolve_pointer d p <> of_opt (rfc6901 d p)) /\
+  resolve_pointer d_10_20 p_space <> of_opt (rfc6901 d_10_20 p_space) /\
+  resolve_pointer d_0_19 p_under <> of_opt (rfc6901 d_0_19 p_under) /\
+  (exists d p, valid_escapes p = false /\ resolve_pointer d p <> of_opt (rfc6901 d p)).
+Proof.
+  split; [exists d_a123, p_neg; split; [exact (proj1 pointer_refuted_regions)|exact pointer_refuted_neg]|].
+  split; [exact pointer_refuted_space|]. split; [exact pointer_refuted_under|].
+  exists d_tilde, p_tilde. exact pointer_refuted_tilde.
+Qed.
+Print Assumptions C10_pointer_rfc6901_refuted.
+
+(* a response filter says exactly what the response key means: exact code, NXX wildcard,
+   default = no other documented key matches *)
+Theorem C10_status_filter_iff : forall key keys code,
+  (str_eqb key s_default || wf_key key) = true -> wf_keys keys = true ->
+  response_filter key keys code = Some (spec_matches key keys code).
+Proof. exact status_filter_iff. Qed.
+Print Assumptions C10_status_filter_iff.
+
+(* a response is stored only in a bundle whose key it matches: a link is followed only from such responses *)
+Theorem C10_bundle_sound : forall link_keys keys code k,
+  wf_keys link_keys = true -> wf_keys keys = true -> bundle_of link_keys keys code = Some k ->
+  In k link_keys /\ spec_matches k keys code = true.
+Proof. exact bundle_sound. Qed.
+Print Assumptions C10_bundle_sound.
+
+(* every expression of the grammar whose names have no . $ # { } and whose pointer / regex has no }
+   is read back by lexer + parser as itself, and evaluates to its denotation (pointers per RFC 6901) *)
+Theorem C10_parse_print_partial : forall rx_ok e,
+  simple_expr rx_ok e = true -> parse rx_ok (print e) = Some (POk [node_of e]).
+Proof. exact parse_print. Qed.
+Print Assumptions C10_parse_print_partial.
+
+Theorem C10_eval_denotes_partial : forall rx_ok rx_extract cx e,
+  simple_expr rx_ok e = true -> ptr_strict cx e = true ->
+  eval_str rx_ok rx_extract cx (print e) = denote rx_extract cx e.
+Proof. exact eval_denotes_partial. Qed.
+Print Assumptions C10_eval_denotes_partial.
+
+(* outside that region the statement is false *)
+Theorem C10_eval_denotes_refuted_dotted_name : exists rx_ok rx_extract cx e,
+  abnf_ok e = true /\ denote rx_extract cx e = OVal (VJ (JStr [118])) /\
+  eval_str rx_ok rx_extract cx (print e) = OParseErr ErrExpr.
+Proof. exists rx_any, rx_none, cx0, e_dotted. exact eval_refuted_dotted_name. Qed.
+Print Assumptions C10_eval_denotes_refuted_dotted_name.
+
+Theorem C10_eval_denotes_refuted_pointer_brace : exists rx_ok rx_extract cx e,
+  abnf_ok e = true /\ denote rx_extract cx e = OVal (VJ (JInt 5)) /\
+  eval_str rx_ok rx_extract cx (print e) = OParseErr ErrExpr.
+Proof. exists rx_any, rx_none, cx0, e_ptr_rb. exact eval_refuted_pointer_brace. Qed.
+Print Assumptions C10_eval_denotes_refuted_pointer_brace.
+
+Theorem C10_eval_denotes_refuted_embedded_body : exists rx_ok rx_extract cx t,
+  forallb gitem_ok t = true /\ eval_str rx_ok rx_extract cx (print_tpl t) = OParseErr ErrExpr.
+Proof. exists rx_any, rx_none, cx0, t_emb_body. exact eval_refuted_embedded_body. Qed.
+Print Assumptions C10_eval_denotes_refuted_embedded_body.
+
+(* a constant containing # is in the grammar, denotes itself, and evaluates to its prefix *)
+Theorem C10_eval_denotes_refuted_hash_text : exists rx_ok rx_extract cx s,
+  forallb gitem_ok [TText s] = true /\ eval_str rx_ok rx_extract cx (print_tpl [TText s]) = OVal (VJ (JStr [97])) /\ s <> [97].
+Proof.
+  exists rx_any, rx_none, cx0, e_a_hash_b. split; [exact (proj1 eval_refuted_hash_text)|]. split; [exact (proj2 eval_refuted_hash_text)|discriminate].
+Qed.
+Print Assumptions C10_eval_denotes_refuted_hash_text.
+
+(* malformed expressions are NOT always rejected: $url.x is outside the grammar and evaluates to something *)
+Theorem C10_rejects_malformed_refuted : exists rx_ok e ns, ~ in_grammar e /\ parse rx_ok e = Some (POk ns).
+Proof. exists rx_any, e_url_x, [NUrl; NString [46]; NString [120]]. exact rejects_malformed_refuted. Qed.
+Print Assumptions C10_rejects_malformed_refuted.
+
+(* link values override generated ones: a name the generator leaves alone keeps the link value *)
+Theorem C10_link_values_override_generated : forall kw c d n v gen,
+  assoc_get c kw = Some d -> assoc_get n d = Some v ->
+  (forall g, gen (map fst d) = Some g -> assoc_get n g = None) ->
+  exists f, final_container kw c gen = Some f /\ assoc_get n f = Some v.
+Proof. exact link_values_override_generated. Qed.
+Print Assumptions C10_link_values_override_generated.
+
+(* body: replaced when merge_body is off; merged with the link members winning when both are objects; replaced otherwise *)
+Theorem C10_link_body_overrides_generated : forall merge new g,
+  is_unres new = false ->
+  (merge = false -> final_body merge (body_ready (Some (XOk new))) g = new) /\
+  (forall gm nm k w, merge = true -> g = VJ (JObj gm) -> new = VJ (JObj nm) -> NoDup (map fst nm) -> assoc_get k nm = Some w ->
+     exists fm, final_body merge (body_ready (Some (XOk new))) g = VJ (JObj fm) /\ assoc_get k fm = Some w) /\
+  (merge = true -> (forall gm nm, ~ (g = VJ (JObj gm) /\ new = VJ (JObj nm))) -> final_body merge (body_ready (Some (XOk new))) g = new).
+Proof. exact body_override. Qed.
+Print Assumptions C10_link_body_overrides_generated.
+
+(* ... but for headers the exclusion from generation is case-sensitive while the case is case-insensitive:
+   a generator that honours exclude still replaces the link value *)
+Theorem C10_link_values_override_generated_refuted_header_case : exists kw gen n v,
+  (forall excl g m, gen excl = Some g -> In m excl -> assoc_get m g = None) /\
+  (exists d, assoc_get s_headers kw = Some d /\ assoc_get n d = Some v) /\
+  exists f, final_headers kw gen = Some f /\ ci_lookup n f <> Some v.
+Proof.
+  exists kw_case, gen_case, [120;45;116], (VJ (JStr [80;79;83;84])).
+  split; [exact (proj1 override_refuted_header_case)|]. split; [eexists; split; reflexivity|].
+  destruct (proj2 override_refuted_header_case) as [f [H1 H2]]. exists f. split; [exact H1|]. rewrite H2. discriminate.
+Qed.
+Print Assumptions C10_link_values_override_generated_refuted_header_case.
+
+(* UNRESOLVABLE (and None) never reaches the derived case: not through parameters, not through the body *)
+Theorem C10_unresolvable_never_sent : forall rx_ok rx_extract cx l c gen d n v,
+  (forall excl g m w, gen excl = Some g -> In (m, w) g -> w <> VUnres) ->
+  final_container (kwargs_of (extract_parameters rx_ok rx_extract cx l)) c gen = Some d -> In (n, v) d -> v <> VUnres.
+Proof. exact unresolvable_never_sent. Qed.
+Print Assumptions C10_unresolvable_never_sent.
+
+Theorem C10_unresolvable_never_sent_body : forall merge xb g,
+  g <> VUnres -> final_body merge (body_ready xb) g <> VUnres.
+Proof. exact unresolvable_never_sent_body. Qed.
+Print Assumptions C10_unresolvable_never_sent_body.
+
+Theorem C10_kwargs_never_unresolvable : forall e c d n v,
+  In (c, d) (kwargs_of e) -> In (n, v) d -> v <> VUnres /\ v <> VJ JNull.
+Proof. exact kwargs_never_unresolvable. Qed.
+Print Assumptions C10_kwargs_never_unresolvable.
